@@ -660,3 +660,31 @@ def attach_fds(c, tr):
     top = ops_of(c)
     ti = 0
     return m
+
+
+def generate_step_timeouts(rnd, tier):
+    """C07, Driver::Step: ToDo constellations (incl. one due >= 2^31 ms ahead) x Step(T) under the virtual clock"""
+    k = {"quick": 150, "thorough": 1500, "search": 450}[tier]
+    cases = []
+    for i in range(k):
+        c = gen_todo_case(rnd, i)
+        if rnd.random() < 0.3:
+            # a ToDo far in the future: the time-out handed to poll must be clamped, never wrap to "unlimited"
+            far = rnd.choice([2147483648, 3000000000, 2147483647, 2147483649]) * MS
+            c.ops.insert(next(j for j, (o, a) in enumerate(c.ops) if o == 40) + 1, (50, [900 + i % 50, 1, far, 0]))
+        c.meta["profile"] = {"timeout": 0.7, "pipe": 0.1, "eintr": 0.05}
+        c.id = "steptm%d" % i
+        cases.append(c)
+    return grow(cases, chooser, rnd)
+
+
+def generate_step_eintr(rnd, tier):
+    """C16, Driver::Step/Run: polls of the driver interrupted by signals"""
+    k = {"quick": 150, "thorough": 1500, "search": 450}[tier]
+    cases = []
+    for i in range(k):
+        c = gen_todo_case(rnd, i) if i % 2 else gen_async_case(rnd, i)
+        c.meta["profile"] = dict(c.meta.get("profile", {}), eintr=0.35)
+        c.id = "stepintr%d" % i
+        cases.append(c)
+    return grow(cases, chooser, rnd)
